@@ -18,4 +18,6 @@ def run(ctx):
     # Issue, Validate, time passes, Validate: one token string presented before and after its expiry in real time
     # (the only behaviour of Tokens.tla that shifting the expiry caveat cannot realise); lifetimes of 2 and 3 s
     seq = [{"secret": s, "user": u, "dur": d} for s in ("k1", "k1 ") for u in ("@alice:example.org", "user1") for d in (2, 3)]
+    # ... and issues at chosen instants inside a wall-clock second (early, middle, late)
+    seq += [{"secret": "k1", "user": "@alice:example.org", "dur": d, "phase": ph} for d in (0, 5, 3600) for ph in (40, 510, 960)]
     ctx.replay_and_compare("c20seq", seq)
